@@ -9,6 +9,8 @@ import (
 	"github.com/shopspring/decimal"
 )
 
+const maxJSONExponent = 400
+
 // JSONToXValue returns an X type from the given JSON
 func JSONToXValue(data []byte) XValue {
 	if len(data) == 0 {
@@ -47,6 +49,11 @@ func jsonTypeToXValue(data []byte, valType jsonparser.ValueType) XValue {
 	case jsonparser.Number:
 		decimalVal, err := decimal.NewFromString(string(data))
 		if err == nil {
+			// a number like 1e999999999 is a few bytes of JSON but can't be used in any calculation or even rendered,
+			// so like other JSON consumers only accept exponents in (a little more than) the range of a double
+			if exp := decimalVal.Exponent(); exp > maxJSONExponent || exp < -maxJSONExponent {
+				return NewXErrorf("JSON number %s is out of range", string(data))
+			}
 			return NewXNumber(decimalVal)
 		}
 	case jsonparser.Boolean:
